@@ -166,13 +166,14 @@ class RegionGeom:
         costhetaS = (self.core_alt**2 + self.earth_rad_2 - rvsqrd) / (
             2 * self.earth_radius * self.core_alt
         )
-        self.thetaS = np.arccos(costhetaS)
+        # a spot (almost) at the nadir has costhetaS = 1 up to rounding
+        self.thetaS = np.arccos(np.clip(costhetaS, -1.0, 1.0))
 
         self.costhetaNSubV = (self.core_alt**2 - self.earth_rad_2 - rvsqrd) / (
             2 * self.earth_radius * self.losPathLen
         )
 
-        thetaNSubV = np.arccos(self.costhetaNSubV)
+        thetaNSubV = np.arccos(np.clip(self.costhetaNSubV, -1.0, 1.0))
 
         self.costhetaTrSubN = np.cos(self.thetaTrSubV) * self.costhetaNSubV - np.sin(
             self.thetaTrSubV
